@@ -190,6 +190,15 @@ func c19Data(seed int64, nrec int, v6 bool, poisonAt int, bare bool, hdr ...int6
 		c := c19Rec{srcPort: uint16(u32()), dstPort: uint16(u32()), proto: uint8(u32()), start: u32(), end: u32(),
 			pktTot: u64(), octTot: u64(), pktD: u64() % 1000, octD: u64() % 100000,
 			srcPod: str([]int{0, 5, 60, 300}[r.IntN(4)]), dstPod: str(20), srcNS: str(10), exportTime: et, seq: sq, dom: dom, exportAddr: addr}
+		if r.IntN(40) == 0 {
+			// the one record of a message of nearly the greatest length: its Kafka message is longer than
+			// the record was (addresses as text, a tag per field)
+			b := make([]byte, 65400-r.IntN(30))
+			for i := range b {
+				b[i] = byte('a' + (i*7+len(b))%26)
+			}
+			c.srcPod = string(b)
+		}
 		if i == poisonAt {
 			c.srcPod = "\xff\xfe" + c.srcPod
 			c.poison = true
@@ -404,7 +413,7 @@ func runC19(pl *plan.Plan, out *plan.Outcome) {
 		return
 	}
 	if res != "done" && out.Trouble == "" {
-		out.Trouble = "run ended: " + res
+		env.runEnded(res, out)
 		return
 	}
 	// ---- oracle ----
@@ -663,7 +672,7 @@ func runC19Two(env *Env, pl *plan.Plan, out *plan.Outcome, kp *producer.KafkaPro
 		env.Violate("publish-never-returns", "two-publishers", "two PublishIPFIXMessages loops on one producer (acknowledgements %v): %d records handed over, %d published, and the run cannot go on: a publisher waits for ever", successes, total, len(got))
 		out.Hash = fmt.Sprintf("%s-stuck", out.Hash)
 	} else if res != "done" && out.Trouble == "" {
-		out.Trouble = "run ended: " + res
+		env.runEnded(res, out)
 		return
 	}
 	if res == "done" && len(got) != total {
